@@ -534,6 +534,10 @@ public:
             // because we want to extend the last vector we must not shrink its max memory usage
             // in order to ensure the missing memory
             ensureMem(newmax - ps->max(), false);
+
+            // packing the memory inside ensureMem() shrinks every vector to its size, also this one; then more memory is
+            // missing than was asked for and insert() below would reallocate without adjusting the vectors' pointers
+            ensureMem(newmax - ps->max(), false);
 #ifndef NDEBUG
             Nonzero<R>* olddata = SVSetBaseArray::data;
             SVSetBaseArray::insert(memSize(), newmax - ps->max());
